@@ -97,6 +97,16 @@ class C11(Prop):
         keys = []
         log = case.get("observed", {}).get("log") or []
         wedged = [e.get("a", "") for e in log if e["k"] == "wedge"]
+        # a failing store write of UpdateStatus(StatusRunning): every consequence is one defect per engine and place
+        fw = next((i for i, e in enumerate(log) if e["k"] == "inj" and e.get("a") == "st.Running"), None)
+        if fw is not None and code >> 2:
+            inflight = 0
+            for e in log[:fw]:
+                if e.get("a") == "start" and e["k"] == "call":
+                    inflight += 1
+                elif e.get("a") == "start" and e["k"] == "ret":
+                    inflight -= 1
+            return "%s/failed-running-write/%s" % (eng, "at-start" if inflight > 0 else "at-restart")
         lost_entry = bool(code & ((1 << 5) | (1 << 3)))
         for bit, name in RULES:
             if code & (1 << bit):
